@@ -898,11 +898,12 @@ where
     fn extend<T: IntoIterator<Item = (I, P)>>(&mut self, iter: T) {
         let iter = iter.into_iter();
         let (min, max) = iter.size_hint();
+        // only the lower bound is guaranteed: the upper bound may be far above
+        // what the iterator will actually yield
+        self.reserve(min);
         let rebuild = if let Some(max) = max {
-            self.reserve(max);
             better_to_rebuild(self.len(), max)
         } else if min != 0 {
-            self.reserve(min);
             better_to_rebuild(self.len(), min)
         } else {
             false
@@ -968,7 +969,7 @@ fn better_to_rebuild(len1: usize, len2: usize) -> bool {
         return false;
     }
 
-    2 * (len1 + len2) < len2 * log2_fast(len1)
+    2usize.saturating_mul(len1.saturating_add(len2)) < len2.saturating_mul(log2_fast(len1))
 }
 
 #[cfg(feature = "serde")]
